@@ -95,10 +95,12 @@ def rule_digit_count(col, facts):
             if st[0] == "=" and st[2][0] == "bin":
                 if st[2][1].startswith("Mul"):
                     C = fold(fl, st[2][3])
+                    if C is None:
+                        C = fold(fl, st[2][2])          # `C * log2`
                 if st[2][1].startswith("Shr"):
                     S = fold(fl, st[2][3])
     if C is None or S is None:
-        col.bad(R, "fast_log10-shape", "fast_log10 is no longer `(log2 * C) >> S`", fl.loc())
+        col.assumed("not-applied", "TBL-digitcount:fast_log10", "fast_log10 is not written as `(log2 * C) >> S`: its estimate is not decided", fl.loc())
         return
     for ty, bits in (("u64", 64), ("u128", 128)):
         name = "<%s as lexical_write_integer::decimal::DecimalCount>::decimal_count::TABLE" % ty
